@@ -62,7 +62,8 @@ class SimulationScenario():
         if "points" in dictionary:
             self.points = dictionary["points"]
             if model is not None:
-                self.model.points = self.points
+                # merge the overrides into the model's table; replacing the table would drop the points the scenario does not override
+                self.model.points.update(self.points)
         else:
             self.points = {}
 
